@@ -223,6 +223,8 @@ json observe(world& w)
         tbyid.push_back({{"id", i}, {"r", (bool)t}});
     }
     o["tbyid"] = tbyid;
+    // what identifies the library: must never change, whatever is done to it and however often it is closed and loaded
+    o["ident"] = {{"uuid", db.uuid()}, {"ver", db.version_name()}, {"dir", db.directory()}};
     return o;
 }
 
@@ -270,6 +272,7 @@ json observe2(world& w)
         if (w.ch[i] && !db.crate_by_id(w.ch[i]->id()))
             stale.push_back({{"id", w.ch[i]->id()}, {"v", w.ch[i]->is_valid()}});
     o["stale"] = stale;
+    o["ident"] = {{"uuid", db.uuid()}, {"ver", db.version_name()}, {"dir", db.directory()}};
     return o;
 }
 
